@@ -29,6 +29,7 @@ Proof.
   - intros x H. discriminate.
   - intro x. reflexivity.
   - intros x H. discriminate.
+  - intros x H. discriminate.
   - intros t [].
   - intros x n H. discriminate.
   - intros x n H. discriminate.
